@@ -421,6 +421,13 @@ def rule_D4(ctx):
     gf = ctx.fn(ROLAND[0], "RolandFileAllocationTable.get_file", "D4")
     from ..core.symexec import run_paths, calls_on
     from .util import evaluator, path_conds_struct, cond_taken
+    # the two stream factories accept every chain get_path resolves: they reject nothing themselves (a chain may use any sector of the
+    # table, the last one included)
+    for path_, qn_ in ((ROLAND[0], "RolandFileAllocationTable.get_file"), (AKAI[0], "SegmentAllocationTable.get_segment")):
+        f_ = ctx.fn(path_, qn_, "D4")
+        raises_ = [r_ for r_ in own_nodes(f_) if isinstance(r_, ast.Raise)]
+        ctx.ob("D4", raises_[0] if raises_ else f_, f"{qn_} turns every resolved chain into a stream (it has no rejection of its own)", not raises_,
+               "" if not raises_ else f"`{norm(raises_[0])[:70]}`: a well-formed chain can be refused", inst=f"no-own-raise:{qn_}")
     params = [a.arg for a in gf.args.args][1:]
     prs = [p for p in run_paths(ctx, gf, rule="D4") if p.end == "return"]
     if not prs:
